@@ -594,7 +594,7 @@ func Run(r *core.Run) {
 		wg.Add(1)
 		go func() {
 			defer wg.Done()
-			runMC(r, pickS(r, "CssMC.quick.cfg", "CssMC.thorough.cfg"), r.Pick(3, 4), func(c *Case) {
+			runMC(r, pickS(r, "CssMC.quick.cfg", "CssMC.thorough.cfg"), r.Pick(4, 3), func(c *Case) {
 				var id []interface{}
 				json.Unmarshal(c.ID, &id)
 				c.Family = "mc"
@@ -621,13 +621,13 @@ func Run(r *core.Run) {
 		}()
 	}
 	g := &gen{voc: voc, rng: rand.New(rand.NewSource(r.Seed))}
-	nSheets := r.Pick(280, 3500)
+	nSheets := r.Pick(240, 3500)
 	if v := os.Getenv("C12_N"); v != "" { // development only
 		fmt.Sscan(v, &nSheets)
 	}
 	sheets := g.Sheets(nSheets, r.Pick(4, 5))
 	t0 := time.Now()
-	got := runGen(r, sheets, r.Pick(1, 2), r.Pick(3, 2))
+	got := runGen(r, sheets, r.Pick(1, 2), r.Pick(2, 2))
 	r.Logf("CssGen: %d sheets -> %d cases in %.1fs", len(sheets), len(got), time.Since(t0).Seconds())
 	wg.Wait()
 	sort.Slice(mcCases, func(i, j int) bool { return mcCases[i].Name < mcCases[j].Name })
@@ -672,7 +672,7 @@ func Run(r *core.Run) {
 	// CSS modules: a slice of the same cases through loader local-css behind a JavaScript entry
 	var local []*Case
 	for i, c := range cases {
-		if i%r.Pick(10, 7) == 0 && c.Family != "witness" && c.Family != "regress" {
+		if i%r.Pick(12, 7) == 0 && c.Family != "witness" && c.Family != "regress" {
 			local = append(local, c)
 		}
 	}
